@@ -332,10 +332,8 @@ def build_layer_reconfigured(ds, layer, k=0):
     if w == "semseg":
         wr = kdw.SemsegTransformWrapper(dataset=ds, transforms=[_decoy(k)], seed=layer["seed"])
         finals = [_final_transform(m) for m in layer["members"]]
-        if k % 2:
-            wr.transforms = finals
-        else:
-            wr.transforms[:] = finals
+        # only the public attribute is assigned: whether the stored container can be edited in place is not part of any promise
+        wr.transforms = finals
         return wr
     raise ValueError(w)
 
